@@ -744,6 +744,48 @@ func familyLongRun(rng *vh.RNG) {
 	}
 }
 
+// codeword lengths around the machine word: one code is quotient + 1 + P bits; for every P the quotients
+// that make it 63, 64 and 65 bits (P = 32: 30, 31, 32; P = 0: 62, 63, 64), and the neighbours of 32, found
+// by scanning items for N = 1 (M = (q+2) << P, so the quotient is uniform in [0, q+2)), then reused in a
+// three-item set
+func codewordItem(r *vh.RNG, key [16]byte, p uint8, q uint64) (uint64, []byte) {
+	m := (q + 2) << p
+	for t := 0; t < 20000; t++ {
+		it := gref.LE64(r.U64())
+		if gref.Value(key, m, it)>>p == q {
+			return m, it
+		}
+	}
+	return m, nil
+}
+
+func familyCodeword(rng *vh.RNG) {
+	r := rng.Fork("codeword")
+	for p := 0; p <= 32; p++ {
+		qs := []uint64{62 - uint64(p), 63 - uint64(p), 64 - uint64(p)}
+		if p == 32 || cfg.Thorough() || cfg.Search {
+			qs = append(qs, 31, 32, 33)
+		}
+		for _, q := range qs {
+			key := randKey(r)
+			m, it := codewordItem(r, key, uint8(p), q)
+			if it == nil {
+				rep.Extra[fmt.Sprintf("codeword_not_found_P%d_q%d", p, q)] = true
+				continue
+			}
+			rep.Count("codeword", fmt.Sprintf("k%d/%d", p, q), true)
+			rep.Histogram[fmt.Sprintf("codeword:bits=%d", q+1+uint64(p))]++
+			non := append([]byte{0xEE}, r.Bytes(9)...)
+			s := spec{P: uint8(p), M: m, Key: key, Data: [][]byte{it}}
+			corr := !cfg.Search && (p == 32 && q == 32 || p == 0 && q == 64 || p == 31 && q == 33 || p == 8 && q == 55)
+			checkBuilt(s, [][][]byte{{it}, {non, it}}, corr, "codeword")
+			// the same code somewhere inside a longer stream (not byte aligned)
+			s3 := spec{P: uint8(p), M: m / 3, Key: key, Data: [][]byte{it, randItem(r), randItem(r)}}
+			checkBuilt(s3, [][][]byte{{it}, {non, it}}, false, "codeword")
+		}
+	}
+}
+
 // state left over between calls: filters of the same shape (same N, P, M, byte length) but different
 // content, queried alternately; every member must still match through every form, every time
 func familyInterleave(rng *vh.RNG) {
@@ -1226,6 +1268,7 @@ func runReplay(path string) {
 		familyBig(rng)
 		familyCollision(rng)
 		familyLongRun(rng)
+		familyCodeword(rng)
 		familyInterleave(rng)
 		familyReuse(rng)
 		familyReduceWrap(rng)
@@ -1266,6 +1309,7 @@ func main() {
 		familyCollision(rng)
 		familyAlloc(rng)
 		familyLongRun(rng)
+		familyCodeword(rng)
 		familyInterleave(rng)
 		familyReuse(rng)
 		familyReduceWrap(rng)
